@@ -155,6 +155,7 @@ class Listener:
     def __init__(self, opts, kind, names, policy):
         self.opts, self.kind, self.names, self.policy = opts, kind, names, policy
         self.seen = []
+        self.busy = False
 
     def on_sub(self, opts, updated):
         self._on(updated)
@@ -167,8 +168,12 @@ class Listener:
         self.seen.append((sorted(updated), snap))
         if policy_rejects(self.policy, snap):
             raise exceptions.OptionsError("listener rejects this state")
-        if self.policy[0] == "follow" and follow_wants(snap, updated):
-            self.opts.update(**FOLLOW_ASSIGN)  # nested update; an OptionsError from it propagates like a rejection
+        if self.policy[0] == "follow" and not self.busy and follow_wants(snap, updated):
+            self.busy = True  # no reaction to the announcements of its own nested update (or of that update's rollback)
+            try:
+                self.opts.update(**FOLLOW_ASSIGN)  # an OptionsError from the nested update propagates like a rejection
+            finally:
+                self.busy = False
 
 
 class Sys:
